@@ -174,7 +174,21 @@ inductive EvalOut where
 
 /-- `SymbolicDim.evaluate(bindings)`: substitute the bound names; an integer number comes back as
     `int`, everything else (symbols left, a non-integer rational, no finite value) as a dimension
-    holding the substituted expression. -/
+    holding the substituted expression.
+
+    Binding is by NAME: a symbol of the model is its name (`Expr.sym : String`), `Env` maps names to
+    integers and `subst` replaces every occurrence of a bound name.  That is what the Python does
+    (`_core.py` 1737-1743: the substitution map is built from `self._expr.free_symbols`, matching
+    `str(symbol)` against the keys of `bindings`), and it matters because SymPy itself tells symbols
+    apart by name AND assumptions: a dimension constructed from a user SymPy expression
+    (`SymbolicDim(sympy.Symbol("N") + 1)`, `sympy.symbols("H W", integer=True)`: a documented
+    constructor input) carries symbols that are different SymPy objects from the parser's
+    `Symbol(name, integer=True, positive=True)`, even two different symbols of one name in one
+    expression; `evaluate`, `free_symbols` and the printed text identify all of them by the name.
+    The model therefore has no assumptions at all; the harness family `sympy-built` (SympyDimCase in
+    harness/c16.py) builds such dimensions with plain / integer-only / positive-only / real /
+    nonnegative symbols, alone and mixed with text-built ones, and compares `evaluate` (complete and
+    partial bindings) and `Shape.evaluate` with this function on the flavour-erased program. -/
 def Dim.evaluate (b : Env) : Dim → EvalOut
   | .unknown => .dim .unknown
   | .bad => .raised
